@@ -324,7 +324,14 @@ def build_workspace(tag, subjects, nb=None, extra_deps="", derive_dep=None, extr
     if not os.path.exists(lock):
         write_if_changed(lock, repo_lock())
     tdir = os.path.join(TARGET, "e3opt" if opt else "e3")
-    p = run(["cargo", "build", "--offline", "--workspace", "--keep-going", "--target-dir", tdir, "--message-format=short"], cwd=ws)
+    jobs = ["-j", "10"] if tag.startswith("thorough/") else []     # large thorough subjects: keep rustc's total memory in bounds
+    p = run(["cargo", "build", "--offline", "--workspace", "--keep-going", "--target-dir", tdir, "--message-format=short"] + jobs, cwd=ws)
+    if p.returncode != 0 and b"signal:" in p.stderr:
+        # a compiler process was killed (out of memory, external kill): environmental, retry once with little parallelism
+        log("a compiler process was killed by a signal; retrying the build with -j 3")
+        p = run(["cargo", "build", "--offline", "--workspace", "--keep-going", "--target-dir", tdir, "--message-format=short", "-j", "3"], cwd=ws)
+        if p.returncode != 0 and b"signal:" in p.stderr:
+            raise MachineryError("compiler processes keep being killed by a signal (memory?):\n" + p.stderr.decode(errors="replace")[-2000:])
     failures = []
     out = []
     stderr = p.stderr.decode(errors="replace")
